@@ -101,7 +101,7 @@ class Prop(BaseProp):
             return BaseProp.compare(self, stream, case, io, mo)
         if stream != "c18":
             return None
-        a = [o for o in io if o.startswith("exp") and " qd" not in o and not o.startswith("expire")]
+        a = [o for o in io if (o.startswith("exp") or o.startswith("rex")) and " qd" not in o and not o.startswith("expire")]
         if a != mo:
             for x, y in zip(a, mo):
                 if x != y:
